@@ -149,3 +149,5 @@ func ghost_rvCanAddr(v reflect.Value) bool { return v.CanAddr() }
 func ghost_rvCanSet(v reflect.Value) bool  { return v.CanSet() }
 
 func ghost_rtKey(t reflect.Type) reflect.Type { return t.Key() }
+
+func ghost_pzOf(t, base reflect.Type, v reflect.Value) reflect.Value { return pointerize(t, base, v) }
